@@ -23,6 +23,7 @@ NAME = os.environ.get("VERIF_FW", "tx")
 # a violation) unless the driver handles them itself (TOLERATE_ESCAPES).
 ESCAPES = []
 TOLERATE_ESCAPES = False
+LIVELOCKS = []      # virtual times at which advance() gave up because timers kept re-arming without any delay
 
 
 def _escaped(where, e):
@@ -66,11 +67,18 @@ if NAME == "tx":
 
     def advance(dt):
         target = CLOCK.seconds() + dt
+        fired = 0
         while True:
             due = [c.getTime() for c in CLOCK.getDelayedCalls()]
             due = [t for t in due if t <= target]
             if not due:
                 break
+            fired += 1
+            if fired > 5000:
+                # something re-arms a zero-delay timer for ever (e.g. a reconnect loop without any delay): give the
+                # driver its turn back; what happened so far is in its log and will be judged
+                LIVELOCKS.append(CLOCK.seconds())
+                return
             t = min(due)
             _clock_advance(max(0.0, t - CLOCK.seconds()), "timer")
         _clock_advance(max(0.0, target - CLOCK.seconds()), "timer")
@@ -250,7 +258,12 @@ else:
         def advance(self, dt):
             target = self._t + dt
             self.settle()
+            fired = 0
             while self._heap and self._heap[0][0] <= target:
+                fired += 1
+                if fired > 5000:
+                    LIVELOCKS.append(self._t)
+                    return
                 when, _, h = heapq.heappop(self._heap)
                 if h._cancelled:
                     continue
